@@ -6,6 +6,7 @@ require (
 	com.tuntun.rangers/node v0.0.0
 	github.com/gogo/protobuf v1.3.1
 	github.com/holiman/uint256 v1.1.1
+	github.com/mattn/go-sqlite3 v1.10.0
 	golang.org/x/crypto v0.0.0-20210711020723-a769d52b0f97
 )
 
